@@ -186,6 +186,26 @@ CLAIMED = {
          "identifier validity is ASCII (what parol emits); keywords only as raw identifiers; known finding F10.",
          "TLC trace validation of generated identifier tables against a TLA+ identifier/distinctness specification",
          "DESIGN.md §6 C33"),
+ "C25": ("model_checking",
+         "Gen_Flags.tla enumerates feature subsets of the PAR model (17 features); the harness writes the grammar, parol reads it, renders it "
+         "with render_par_string and reads it back, before and after transformation; ParModel.tla compares the projected models field by "
+         "field. All repository .par files take the same path.",
+         "subsets of <= 3 (5) features and complements of <= 2; the projection lists exactly what the property names (symbols, clipping, member "
+         "names, user types, scanner states, lookahead, declarations, scanner configuration).",
+         "TLC-enumerated feature combinations; TLC trace validation of model equality after the round trip",
+         "DESIGN.md §6 C25"),
+ "C26": ("exploration",
+         "Unfiltered grammar universe (LL and LALR, K in 1,3,10), EBNF universes, all repository .par files with seeded mutations, random "
+         "bytes through the whole pipeline under catch_unwind; panics are reported with their source location.",
+         "TLC enumerates the structured part of the input space; the mutated/random part is sampled (seeded); hangs are counted, not reported.",
+         "TLC-enumerated grammar universes + seeded mutation fuzzing of the whole pipeline, panic = violation",
+         "DESIGN.md §6 C26"),
+ "C19": ("exploration",
+         "LL and LR parsers of every accepted grammar of the universe run on seeded random token soups and random code-point strings, recovery "
+         "on/off, per-run deadline and catch_unwind; LR runs with a 20000 depth guard to turn runaways into findings; error-entry discipline checked.",
+         "sampled inputs; the step-wise recovery discipline on short inputs is in C01/C02's trace validation.",
+         "TLC-enumerated grammars, seeded random inputs on the real run-time with deadline / panic detection",
+         "DESIGN.md §6 C19"),
 }
 
 NOT_YET = "check not built yet in this round (see DESIGN.md §11.2 build order); will be claimed once its quick check passes on the unchanged tree"
